@@ -21,4 +21,4 @@ meta={"seed":id,"property":prop,"patch":os.path.basename(patch),
 json.dump(meta,open(f'/verif/seeded/{id}/meta.json','w'),indent=1)
 print(id, "caught" if caught!="0" else "MISSED", line[-90:])
 PY
-done < tools/seedtable.txt
+done < ${SEEDTABLE:-tools/seedtable.txt}
